@@ -2022,6 +2022,38 @@ def _model_inputs(c, model):
     return out
 
 
+def _sample_model(c, tries=40, seed=12345):
+    """model of the current path condition found by SAMPLING the declared input ranges and letting the solver validate
+    each sample against the full path condition, assumptions and axioms (with every input fixed the query is numeric).
+    Used only where z3 could not produce a model itself; a validated sample is a genuine model (it is replayed on
+    the real code like any other).  Returns {name: value} or None."""
+    import random
+    rng = random.Random(seed + len(c.pc))
+    names = list(c.inputs)
+    if not names: return None
+    for _ in range(tries):
+        vals = {}
+        for n in names:
+            z = c.inputs[n]
+            lo, hi = c.ranges.get(n, (None, None))
+            lo = float(lo) if lo is not None else -10.0; hi = float(hi) if hi is not None else 10.0
+            if z.sort() == z3.IntSort():
+                vals[n] = rng.randint(int(math.ceil(lo)), int(math.floor(hi)))
+            else:
+                vals[n] = Fraction(round(rng.uniform(lo, hi) * 4096)) / 4096          # dyadic: exact as binary64
+                if vals[n] < lo or vals[n] > hi: vals[n] = Fraction(lo + hi) / 2 if lo <= (lo + hi) / 2 <= hi else Fraction(lo)
+        fix = [c.inputs[n] == (z3.IntVal(int(v)) if c.inputs[n].sort() == z3.IntSort() else z3.RealVal(str(v))) for n, v in vals.items()]
+        keepm, keepv = c.model, getattr(c, 'model_vars', None)
+        try:
+            r = c.check(*fix, want_model=True, noslice=True, timeout_ms=min(c.timeout_ms, 3000))
+        finally:
+            c.model, c.model_vars = keepm, keepv
+        if r == z3.sat:
+            c.notes.append('model of the path condition found by validated sampling')
+            return {n: (int(v) if c.inputs[n].sort() == z3.IntSort() else float(v)) for n, v in vals.items()}
+    return None
+
+
 def explore(fn, max_paths=2000, timeout_ms=10000, linearize=True, maxcases=8, allowed_exc=(),
             budget_s=None, witness_paths=1, verbose=False):
     """run fn() on every feasible path; fn returns a list of (name, SB/bool) obligations.
@@ -2058,8 +2090,8 @@ def explore(fn, max_paths=2000, timeout_ms=10000, linearize=True, maxcases=8, al
         if status.startswith('exc:'):
             # unexpected exception on a feasible path: obtain a witness for replay
             r = c.check(want_model=True, noslice=True)
-            m = _model_inputs(c, c.model) if r == z3.sat else None
-            pr.obligations.append(('no_unexpected_exception', 'sat' if r == z3.sat else 'unknown', m))
+            m = _model_inputs(c, c.model) if r == z3.sat else _sample_model(c)
+            pr.obligations.append(('no_unexpected_exception', 'sat' if (r == z3.sat or m is not None) else 'unknown', m))
         if status == 'ok' and out:
             for name, p in out:
                 if isinstance(p, SB):
@@ -2073,7 +2105,7 @@ def explore(fn, max_paths=2000, timeout_ms=10000, linearize=True, maxcases=8, al
                 else:
                     # concretely false on this path: any model of the path condition is a counterexample
                     r = c.check(want_model=True, noslice=True)
-                    pr.obligations.append((name, 'sat-concrete', _model_inputs(c, c.model) if r == z3.sat else None))
+                    pr.obligations.append((name, 'sat-concrete', _model_inputs(c, c.model) if r == z3.sat else _sample_model(c)))
             if nwit < witness_paths:
                 # prefer a GENERIC witness: real inputs non-zero and pairwise distinct in magnitude (a model full of zeros
                 # and coinciding values hides most errors in the concrete replay); fall back to any model
@@ -2084,6 +2116,9 @@ def explore(fn, max_paths=2000, timeout_ms=10000, linearize=True, maxcases=8, al
                     r = c.check(want_model=True, noslice=True)
                 if r == z3.sat:
                     pr.witness = _model_inputs(c, c.model); nwit += 1
+                else:
+                    w = _sample_model(c)
+                    if w is not None: pr.witness = w; nwit += 1
         work.extend(c.worklist)
         stats.paths += 1
         stats.add(c.stats)
